@@ -95,7 +95,10 @@ class Missing(Exception):
 
 
 def call_term(f, args, prefix=""):
-    """Term the probe of f returns for pipeline-level argument dict `args`."""
+    """Term the probe of f returns for pipeline-level argument dict `args`.
+    `prefix` may be a dict function name -> prefix (a replaced function has another probe name)."""
+    if isinstance(prefix, dict):
+        prefix = prefix.get(f["name"], "")
     return prefix + f["name"] + "(" + ";".join(f"{ip}={args[p]}" for p, ip in zip(f["params"], f["iparams"])) + ")"
 
 
